@@ -771,6 +771,18 @@ def waker_store(ctx, facts):
         r = s["r"]
         if r["k"] == "bin" and r["op"] == "Rem":
             e = flow.expr_of(sh, r["a"], max_depth=6)
+    if e is None:
+        # the arithmetic may live in a small associated function (`Self::shard_index(i)`): the same check on its body,
+        # given that it is called with the send index
+        for bb, t in sh.calls():
+            hb = facts.bodies.get(F.callee(t)[0] or "")
+            if hb is not None and (F.callee(t)[0] or "").startswith(P + "Waiting::") and len(t["args"]) == 1 and flow.expr_of(sh, t["args"][0], max_depth=4) == ("arg", 2):
+                for bb2, idx2, s2 in hb.iter_assigns():
+                    r2 = s2["r"]
+                    if r2["k"] == "bin" and r2["op"] == "Rem":
+                        e1 = flow.expr_of(hb, r2["a"], max_depth=6)
+                        if ("arg", 1) in malsec_leaves(e1) and not [x for x in malsec_leaves(e1) if x[0] == "arg" and x[1] != 1]:
+                            e = ("bin", "Shr", ("arg", 2), ("const", 0))      # a pure function of the send index
     ok2 = e is not None and ("arg", 2) in malsec_leaves(e) and not [x for x in malsec_leaves(e) if x[:2] == ("arg", 1)]
     ctx.ob("SORTED-wakers", "shard-depends-on-index-only", ok2, "shard index = f(i) % SHARDS" if ok2 else "the shard index is not a pure function of the send index", site_of(sh))
     ins = flow.find_calls(sa, re.compile(r"VecDeque::<T, A>::insert$"))
